@@ -4,7 +4,7 @@
    of the source and return [None]. *)
 From Coq Require Import ZArith Bool List.
 Import ListNotations.
-Open Scope Z_scope.
+Local Open Scope Z_scope.
 
 Definition W := 2 ^ 64.
 Definition BITS := 64.
